@@ -426,7 +426,7 @@ def check_C15(ctx):
         exp = x["out"] + (" " + scaled(scale[ev["t"]], zval(x["r"])) if x["out"].startswith("ok") else "")
         sig = {"kind": "fx", "type": ev["t"], "op": ev["op"], "rule": ev["rule"] or "none", "class": v["cls"], "dev": v["dev"],
                "out": ev["out"].split(" ")[0], "via": "+".join(ev["via"])}
-        ctx.report(sig, "rejected by FixedPointJudge (%s): %s   SPEC EXPECTS %s" % (v["cls"], fx_desc(ev, scale[ev["t"]]), exp), ev)
+        ctx.report(sig, "rejected by FixedPointJudge (%s, deviation %s): %s   SPEC EXPECTS %s" % (v["cls"], v["dev"], fx_desc(ev, scale[ev["t"]]), exp), ev)
     distinct, errs, classes = set(), 0, {}
     for e in events:
         a, b, c = zval(e["a"]), zval(e["b"]), zval(e["c"])
@@ -582,7 +582,7 @@ def replay_C15(ctx, obj):
     rc = 0
     for e in events:
         v = bad.get(e["k"])
-        print("REPLAY %s: %s" % ("REJECTED by the specification (%s)" % v["cls"] if v else "accepted", fx_desc(e, scale)))
+        print("REPLAY %s: %s" % ("REJECTED by the specification (%s, deviation %s)" % (v["cls"], v["dev"]) if v else "accepted", fx_desc(e, scale)))
         rc = rc or (1 if v else 0)
     return rc
 
@@ -638,7 +638,7 @@ def replay_C21(ctx, obj):
 META = {
     "C15": {
         "level_text": "For Fix64, UFix64, Fix128 and UFix128: + - * / % and multiplyDivide (without a rule and with each of the four rounding rules) are executed on spec-defined boundary operands (0, +-1 unit, +-1.0, 0.5, min, max, pairs whose product or quotient straddles the range or is below one unit, tie and near-tie triples) plus seeded random operands, through the interpreter's value methods and through scripts on interpreter and VM; every distinct observation is judged by TLC against the relational specification on exact integers (truncation / rounding as inequalities between products, failure iff the exact rounded result is outside [min,max], division by zero, remainder by decomposition).",
-        "level_note": "Sampled operands, not exhaustive. Trusted: TLC, the driver's operand construction and limb encoding; witnesses are checked by the specification (unique solution, FixedPointLaws).",
+        "level_note": "Sampled operands, not exhaustive. One known defect (128-bit multiplyDivide, external long-division routine) is matched as a named deviation. Trusted: TLC, the driver's operand construction and limb encoding; witnesses are checked by the specification (unique solution, FixedPointLaws).",
         "technique": "TLA+ specification (spec/num: Bignum, ConvertTypes, FixedPoint, FixedPointOperands, FixedPointJudge, FixedPointLaws) checked with TLC; relational trace validation of recorded operations (E3)",
         "design_ref": "DESIGN.md section 5 C15, Appendix A.7", "engine": "E3 relational trace",
     },
